@@ -48,7 +48,7 @@ def sm_cfg(c, out):
 
 
 COND_FIELDS = ["init", "kw", "op", "opctx", "ex", "len", "nesting", "cannest", "paren", "padded", "ronly", "isenc", "enc",
-               "err", "id", "cat", "valid", "str", "bits"]
+               "err", "id", "cat", "valid", "str", "bits", "loglevels"]
 
 COND_DEFAULT = dict(machine="cond", KwArgs=["k", "", "stringer", "nil", "int"],
                     OpArgs=["Eq", "Ge", "op0", "user", "emptytext", "emptyctx", "nil"],
@@ -643,6 +643,8 @@ def c18(work, v, tier):
                              depth=3 if q else 4, walks=300 if q else 3000, wlen=40)),
               ("settings", dict(Kinds=["AND", "LIST", "BASIC"], MaxLen=0, Fams=["settings", "opts"], OptFlags=["fold", "ronly"],
                                 depth=2, walks=300 if q else 3000, wlen=40))]
+    tables.append(("cond-loglevel", dict(machine="cond", KwArgs=["k"], OpArgs=["Eq"], ExArgs=["s:v"], CFams=["loglevel", "opts"], COptFlags=["ronly"],
+                                         depth=2, walks=200 if q else 2000)))
     tables.append(("cond-flags", dict(machine="cond", KwArgs=["k"], OpArgs=["Eq"], ExArgs=["s:v"], CFams=["opts", "settings", "set"],
                                       depth=3 if q else 4, walks=300 if q else 3000)))
     tables.append(("loglevel", dict(Kinds=["AND"], MaxLen=0, Fams=["loglevel", "opts"], OptFlags=["ronly"], depth=2 if q else 3, walks=300 if q else 3000, wlen=40)))
